@@ -256,6 +256,9 @@ void h_F13_block(void){
 double g_hist_last[TSG_NCH * TSG_NDIM], g_pdf_hist_last[TSG_NCH];
 void hist_append(TasmanianDREAM *s, const double *v, size_t n){ for (size_t k = 0; k < TSG_NCH * TSG_NDIM; k++) if (k < n) g_hist_last[k] = v[k]; s->history_size += n; }
 void pdf_hist_append(TasmanianDREAM *s, const double *v, size_t n){ for (size_t k = 0; k < TSG_NCH; k++) if (k < n) g_pdf_hist_last[k] = v[k]; s->pdf_history_size += n; }
+enum { VEC_state, VEC_pdf_values, VEC_history, VEC_pdf_history };
+bool g_dropped[4];      /* ghost: the vector was replaced by an empty one */
+void vec_drop(TasmanianDREAM *s, int which){ g_dropped[which] = true; if (which == VEC_history) s->history_size = 0; if (which == VEC_pdf_history) s->pdf_history_size = 0; }
 //@ harness h_state_members
 void h_state_members(void){
   TasmanianDREAM st, old;
@@ -267,7 +270,8 @@ void h_state_members(void){
   for (size_t k = 0; k < TSG_NCH; k++) st.pdf_values[k] = nondet_double();
   old = st;
   double arg[TSG_NCH * TSG_NDIM]; size_t a_n = nondet_size_t(), a_acc = nondet_size_t(); int a_which = nondet_int();
-  __CPROVER_assume(a_n <= TSG_NCH * TSG_NDIM && a_acc <= TSG_NCH && a_which >= 0 && a_which <= 2);
+  __CPROVER_assume(a_n <= TSG_NCH * TSG_NDIM && a_acc <= TSG_NCH && a_which >= 0 && a_which <= 4);
+  for (int k = 0; k < 4; k++) g_dropped[k] = false;
   for (size_t k = 0; k < TSG_NCH * TSG_NDIM; k++) arg[k] = nondet_double();
   tsg_exc = 0;
   size_t nd = st.num_chains * st.num_dimensions;
@@ -285,6 +289,14 @@ void h_state_members(void){
       __CPROVER_assert(tsg_exc == 0 && st.init_values && st.init_state == old.init_state, "F15 setPDFvalues marks the probability values ready");
       for (size_t k = 0; k < TSG_NCH; k++) if (k < st.num_chains) __CPROVER_assert(TSG_SAME(st.pdf_values[k], arg[k]), "F15 setPDFvalues stores the given values");
     }
+  } else if (a_which == 3) {
+    TasmanianDREAM_clearPDFvalues(&st);
+    __CPROVER_assert(g_dropped[VEC_pdf_values] && !st.init_values, "F15 clearPDFvalues frees the cached probability values and marks them not ready (representation invariant: init_values implies num_chains stored values)");
+    __CPROVER_assert(!g_dropped[VEC_state] && !g_dropped[VEC_history] && !g_dropped[VEC_pdf_history] && st.init_state == old.init_state && st.history_size == old.history_size && st.pdf_history_size == old.pdf_history_size && st.accepted == old.accepted, "F15 clearPDFvalues touches nothing else");
+  } else if (a_which == 4) {
+    TasmanianDREAM_clearHistory(&st);
+    __CPROVER_assert(g_dropped[VEC_history] && g_dropped[VEC_pdf_history] && st.history_size == 0 && st.pdf_history_size == 0 && st.accepted == 0, "F15 clearHistory empties the samples AND their probability values and resets the acceptance count (history holds dimensions numbers per recorded value)");
+    __CPROVER_assert(!g_dropped[VEC_state] && !g_dropped[VEC_pdf_values] && st.init_state == old.init_state && st.init_values == old.init_values, "F15 clearHistory keeps the current chain states and their cached values");
   } else {
     TasmanianDREAM_saveStateHistory(&st, a_acc);
     __CPROVER_assert(st.history_size == old.history_size + nd && st.pdf_history_size == old.pdf_history_size + st.num_chains && st.accepted == old.accepted + a_acc, "F15 a snapshot appends chains x dimensions states, chains probability values and the acceptance count");
